@@ -133,6 +133,15 @@ class Run(object):
                     run.futs.append((idx, fut))
                     return fut
                 self.sink = out.buffer(8).sink(sinkf)
+            elif c["sink"] == "slow":
+                # no buffer: a waiting node (rate_limit(0)) directly in front of an asynchronous sink, so that the
+                # source's own emit of a batch stays pending until the harness finishes that batch
+                def sinkf(x):
+                    idx = arrive(x)
+                    fut = run.loop.create_future()
+                    run.futs.append((idx, fut))
+                    return fut
+                self.sink = out.rate_limit(0).sink(sinkf)
             else:
                 raise KeyError(c["sink"])
             self.source.start()
@@ -209,7 +218,7 @@ class Run(object):
                     self.cur["done_now"].append(i)
                     self.loop.call_soon(lambda: self.sink._release_refs(md))
                     self.cur["model_events"] = [["BatchDone", i]]
-            elif self.case["sink"] == "buffer":
+            elif self.case["sink"] in ("buffer", "slow"):
                 if self.futs:
                     i, f = self.futs.pop(0)
                     self.done.add(i)
